@@ -3,6 +3,7 @@ package rules
 import (
 	"fmt"
 	"go/ast"
+	"go/types"
 	"go/token"
 	"sort"
 	"strings"
@@ -225,7 +226,36 @@ func c10(c *core.Ctx, r *core.Report) {
 	}
 	orderRule("analysis/dataflow", "AnalyzerState.LoadExternalContractSummary", "interface-before-function", callTo("InterfaceMethodKey"), callTo("String"),
 		"interface-method specification is looked up before the function specification", "function specification is looked up before the interface-method specification")
-	orderRule("analysis/dataflow", "InterProceduralFlowGraph.BuildGraph", "contracts-before-linking", callTo("LoadExternalContractSummary"), callTo("resolveCalleeSummary"),
+	// a statement "does X" if it calls X or a repository function whose call cone contains X (helpers extracted
+	// from BuildGraph keep the order of the steps)
+	dfPkg := c.Pkg("analysis/dataflow")
+	callReaches := func(name string) func(ast.Node) bool {
+		direct := callTo(name)
+		return func(n ast.Node) bool {
+			if direct(n) {
+				return true
+			}
+			call, ok := n.(*ast.CallExpr)
+			if !ok || dfPkg == nil {
+				return false
+			}
+			obj, _ := core.CalleeObj(call, dfPkg.TypesInfo).(*types.Func)
+			if obj == nil {
+				return false
+			}
+			sf := c.Prog.FuncValue(obj)
+			if sf == nil || !c.IsRepoFunc(sf) {
+				return false
+			}
+			for f := range c.RepoGraph().Cone(false, sf) {
+				if f.Name() == name {
+					return true
+				}
+			}
+			return false
+		}
+	}
+	orderRule("analysis/dataflow", "InterProceduralFlowGraph.BuildGraph", "contracts-before-linking", callReaches("LoadExternalContractSummary"), callReaches("resolveCalleeSummary"),
 		"contract enforcement (step 2) precedes linking (step 3)", "summaries are linked before contracts are enforced: calls get the analysed summary instead of the specification")
 	r.Floor("R10.order", 5, "five ordering obligations")
 
